@@ -82,19 +82,30 @@ def bisect(ctx, rep):
     _NF_CTX['prog'], _NF_CTX['fn'] = prog, fn
     fp, lo, hi = fn.params[0], fn.params[1], fn.params[2]
     al = aliases(fn, [lo, hi])
-    asserts = [s for s in fn.body() if isinstance(s, (ast.Assert, ast.If))]
     loops = [s for s in fn.body() if isinstance(s, (ast.For, ast.While))]
     first_loop = loops[0].lineno if loops else 10 ** 9
-    pre = {}
-    for s in asserts:
+    asserts = [(s, fp, al) for s in fn.body() if isinstance(s, (ast.Assert, ast.If)) and s.lineno <= first_loop]
+    # a helper called before the loop with f and both ends: its assertions, with its parameters mapped back
+    for s in fn.body():
         if s.lineno > first_loop:
-            continue
+            break
+        if isinstance(s, ast.Expr) and isinstance(s.value, ast.Call):
+            g = prog.functions.get(prog.resolve(fn.module, s.value.func) or '')
+            if g is None or g.cls is not None or s.value.keywords or len(s.value.args) > len(g.params):
+                continue
+            bind = {p_: a_.id for p_, a_ in zip(g.params, s.value.args) if isinstance(a_, ast.Name)}
+            gf = [p_ for p_, a_ in bind.items() if a_ == fp]
+            gal = {p_: al[a_] for p_, a_ in bind.items() if a_ in al}
+            if len(gf) == 1 and set(gal.values()) == {lo, hi}:
+                asserts += [(h, gf[0], gal) for h in g.body() if isinstance(h, (ast.Assert, ast.If))]
+    pre = {}
+    for s, fp_, al_ in asserts:
         if isinstance(s, ast.If) and not any(isinstance(x, ast.Raise) for x in s.body):
             continue
         base_neg = isinstance(s, ast.If)  # `if bad: raise` : the test must be false to continue
         for c in ast.walk(s.test):
             if isinstance(c, ast.Compare) and len(c.ops) == 1 and isinstance(c.left, ast.Call) and isinstance(c.left.func, ast.Name) \
-                    and c.left.func.id == fp and c.left.args and isinstance(c.left.args[0], ast.Name) and c.left.args[0].id in al \
+                    and c.left.func.id == fp_ and c.left.args and isinstance(c.left.args[0], ast.Name) and c.left.args[0].id in al_ \
                     and const_value(c.comparators[0]) in (0, 0.0):
                 # number of `not` between the test root and the comparison; .all() keeps polarity, .any() does too for our purpose
                 negs = 0
@@ -112,7 +123,13 @@ def bisect(ctx, rep):
                     # not (x <= 0).all()  raises when ANY lane violates: required = all lanes satisfy the original test
                     if redname == 'any':
                         pass
-                pre[al[c.left.args[0].id]] = (op, s, redname, neg)
+                pre[al_[c.left.args[0].id]] = (op, s, redname, neg)
+    handed = [s_ for s_ in fn.body() if s_.lineno <= first_loop and isinstance(s_, ast.Expr) and isinstance(s_.value, ast.Call)
+              and any(isinstance(a_, ast.Name) and a_.id == fp for a_ in s_.value.args)]
+    if handed and (lo not in pre or hi not in pre):
+        rep.undecided('D1.pre', fn, handed[0], f'`{short(handed[0], 50)}` receives f before the loop: whether it rejects an invalid bracket is not derived', construct='precondition')
+        pre.setdefault(lo, ('LtE', handed[0], None, False))
+        pre.setdefault(hi, ('GtE', handed[0], None, False))
     rep.check('D1.pre', fn, pre.get(lo, (None, fn.node.name))[1], lo in pre and pre[lo][0] in ('LtE', 'Lt'),
               f'requires f({lo}) <= 0', f'no precondition f({lo}) <= 0 before the loop: a bracket whose lower end is above the root is accepted',
               construct=f'precondition on {lo}')
@@ -491,6 +508,18 @@ def chandrupatla(ctx, rep):
             if isinstance(s, ast.Assign) and isinstance(s.targets[0], ast.Subscript) and isinstance(s.targets[0].value, ast.Name) and s.targets[0].value.id == T \
                     and isinstance(s.targets[0].slice, ast.Name):
                 IQI = s.targets[0].slice.id
+    if T is None:
+        # the fraction may be handed to a helper that interpolates: the name that is subscript-stored under a mask and also bound to 0.5
+        halves_ = {s_.targets[0].id for s_ in walk_no_nested(fn.node) if isinstance(s_, ast.Assign) and len(s_.targets) == 1 and isinstance(s_.targets[0], ast.Name)
+                   and (const_value(s_.value) == 0.5 or (isinstance(s_.value, ast.Call) and call_name(s_.value) == 'full' and len(s_.value.args) == 2 and const_value(s_.value.args[1]) == 0.5))}
+        masked = {s_.targets[0].value.id: s_.targets[0].slice.id for s_ in ast.walk(lp) if isinstance(s_, ast.Assign) and isinstance(s_.targets[0], ast.Subscript)
+                  and isinstance(s_.targets[0].value, ast.Name) and isinstance(s_.targets[0].slice, ast.Name)}
+        both = sorted(halves_ & set(masked))
+        if len(both) == 1:
+            T, IQI = both[0], masked[both[0]]
+    if T is None or SHAPE is None:
+        rep.undecided('D4.scalar', fn, lp, 'the interpolation fraction / the shape test of chandrupatla were not recognised', construct='interpolation formula')
+        return
     scalar_t = vector_t = None
     for s in ast.walk(lp):
         if isinstance(s, ast.If) and isinstance(s.test, ast.UnaryOp) and isinstance(s.test.op, ast.Not) \
@@ -519,6 +548,8 @@ def chandrupatla(ctx, rep):
                     interp = any(pol and isinstance(t_, ast.Name) and t_.id == IQI for t_, pol in p.conds)
                     if assigns and not interp:
                         v = assigns[0].value
+                        if isinstance(v, ast.IfExp) and isinstance(v.test, ast.Name) and v.test.id == IQI:
+                            v = v.orelse      # t = <interpolation> if iqi else 0.5
                         halves = halves and (const_value(v) == 0.5 or (isinstance(v, ast.Call) and call_name(v) == 'full' and len(v.args) == 2 and const_value(v.args[1]) == 0.5))
                 rep.check('D4.scalar', fn, s, good, f'{which} branch: t is assigned on every path of the iteration',
                           f'{which} branch: some path leaves t unassigned, so the step of the previous iteration is reused where a bisection step is required',
